@@ -83,9 +83,9 @@ theorem hRefresh_success_inv {c s k tid cr lt fam k' me code tid' ra}
 
 theorem hCreatePerm_success_inv {c s k tid cr peers k' me code tid' ra}
     (h : Out.resp k' me true code tid' ra ∈ (hCreatePerm c s k tid cr peers).outs) :
-    ∃ u a, authenticate c cr = .ok u ∧ ownAlloc s k u = some a ∧ (permLoop c s.now k.lid peers a).2 = none ∧
+    ∃ u a, authenticate c cr = .ok u ∧ ownAlloc s k u = some a ∧ (permLoop c s.now k peers a).2 = none ∧
       peers ≠ [] ∧ k' = k ∧ tid' = tid ∧ code = 0 ∧
-      (hCreatePerm c s k tid cr peers).upd = .set (permLoop c s.now k.lid peers a).1 ∧
+      (hCreatePerm c s k tid cr peers).upd = .set (permLoop c s.now k peers a).1 ∧
       (hCreatePerm c s k tid cr peers).resv = none := by
   unfold hCreatePerm at h
   split at h
@@ -107,7 +107,7 @@ theorem hCreatePerm_success_inv {c s k tid cr peers k' me code tid' ra}
 
 theorem hChanBind_success_inv {c s k tid cr num peer k' me code tid' ra}
     (h : Out.resp k' me true code tid' ra ∈ (hChanBind c s k tid cr num peer).outs) :
-    ∃ u a n p, authenticate c cr = .ok u ∧ ownAlloc s k u = some a ∧ bindChecks c k.lid a num peer = .ok (n, p) ∧
+    ∃ u a n p, authenticate c cr = .ok u ∧ ownAlloc s k u = some a ∧ bindChecks c k a num peer = .ok (n, p) ∧
       k' = k ∧ tid' = tid ∧ code = 0 ∧
       (hChanBind c s k tid cr num peer).upd = .set (addChan s.now c n p a) ∧
       (hChanBind c s k tid cr num peer).resv = none := by
